@@ -189,6 +189,13 @@ def make_second_molecule(rng, nprng, kind):
             else:
                 X[:, 0], X[:, 1], X[:, 2] = c[:, 0], c[:, 0], c[:, 1]
             els = [rng.choice(["H", "C", "N", "O"]) for _ in range(n)]
+        elif kind == "centre_first":
+            # a centrosymmetric molecule whose FIRST atom sits exactly at the centre of mass (pairs +-p of equal elements around it): the
+            # vector from the centre of mass to that atom is pure rounding noise
+            ps = np.round(nprng.uniform(-1.8, 1.8, size=(3, 3)), 3)
+            pe = [rng.choice(["H", "C", "N", "O"]) for _ in range(3)]
+            X = np.vstack([np.zeros(3)] + [v for q in ps for v in (q, -q)])
+            els = [rng.choice(["C", "N", "O"])] + [e for e in pe for _ in range(2)]
         else:
             n = rng.randint(4, 8)
             X = nprng.uniform(-1.5, 1.5, size=(n, 3))
@@ -206,7 +213,10 @@ def make_second_molecule(rng, nprng, kind):
             I += mm * ((x @ x) * np.eye(3) - np.outer(x, x))
         v = np.linalg.eigh(I)[1]
         proj = np.abs(Y @ v)
-        if kind == "nonplanar":
+        if kind == "centre_first":
+            if proj[1:].min() < 0.05:
+                continue
+        elif kind == "nonplanar":
             if proj[0].min() < 0.05:
                 continue
         else:
@@ -226,6 +236,10 @@ def drive(tr, pts, io, d, rng, nprng, tier, idx, cache, force=None):
     n_o = rng.choice([4, 12, 25])
     t = rng.choice(["[0.2, 0.35]", "[0.2, 0.3, 0.45]", "[0.2, 0.35, 0.45]", "[0.15, 0.25, 0.35, 0.45]", "linspace(0.2, 0.5, 3)", "[1.0, 1.5, 2.5]", "[0.4, 1.2, 3.0]"])
     balg, oalg = rng.choice(["cube4D", "randomQ"]), rng.choice(["ico", "cube3D", "randomS"])
+    if idx == 0 and cache.get("__long__"):
+        # the long trajectory of the run is assigned on a large direction grid whose last subdivision level is only partly filled (cells of
+        # very different size): a nearest-point search with a distance cut-off loses directions deep inside the largest cells
+        n_b, n_o, oalg = 1, rng.choice([210, 300, 390]), "cube3D"
     if force:
         n_b, n_o, t, balg, oalg = force["n_b"], force["n_o"], force["t"], force["balg"], force["oalg"]
     key = (balg, n_b, oalg, n_o, t)
@@ -236,7 +250,7 @@ def drive(tr, pts, io, d, rng, nprng, tier, idx, cache, force=None):
                       np.asarray(fg.get_position_grid().get_radii(), dtype=float))
     grid, dgrid, qgrid, r = cache[key]
     grid = grid.copy()
-    kind = rng.choice(["nonplanar", "nonplanar", "water", "planar", "h2o_file"])
+    kind = rng.choice(["nonplanar", "nonplanar", "water", "planar", "h2o_file", "centre_first"])
     if idx == 0 and cache.get("__far_planar__"):
         # every run contains planar molecules 10-29 A from the origin (float32 noise ~1e-6 A there; regression case of F11)
         kind, t = "planar", "[1.0, 1.5, 2.5]"
@@ -265,7 +279,7 @@ def drive(tr, pts, io, d, rng, nprng, tier, idx, cache, force=None):
     include_outliers = rng.choice([True, True, np.True_, 1] if rng.random() < 0.4 else [False, False, np.False_, 0])
     # the whole system may sit anywhere in the box: in half of the set-ups every atom of every frame is shifted by one offset
     offset = np.round(nprng.uniform(-8, 8, size=3), 3) if rng.random() < 0.5 else None
-    cartesian = rng.random() < 0.5
+    cartesian = rng.random() < 0.5 or (idx == 0 and bool(cache.get("__long__")))
     outer = r[-1] + 0.5 * (r[-1] - r[-2])
     mode = rng.choice(["continuous", "continuous", "own_pt", "continuous_twice"]) if not force_far else "continuous"
     if mode == "own_pt":
@@ -328,9 +342,54 @@ def drive(tr, pts, io, d, rng, nprng, tier, idx, cache, force=None):
         REC.crashed("C11.harness_or_setup_raised", e)
 
 
+def drive_churn(tr, pts, io, d, rng, nprng, rounds):
+    """object churn: many small full grids of EQUAL shape but different radii are built in a helper, round-tripped through an assignment
+    tool and dropped; a fresh array often lands on the address of a dead one (anything remembered about an array by id() surfaces here)"""
+    from molgri.space.fullgrid import FullGrid
+    p1, p2 = os.path.join(d, "churn_m1.xyz"), os.path.join(d, "churn_m2.xyz")
+    X1, el1 = c10.make_geometry(rng, nprng, "nonplanar", 4)
+    c10.write_molecule(p1, X1, el1)
+    X2, el2 = make_second_molecule(rng, nprng, "nonplanar")
+    c10.write_molecule(p2, X2, el2)
+
+    held = [None]
+
+    def one_round(t):
+        fg = FullGrid("1", "ico_4", t)
+        base = fg.get_full_grid_as_array()
+        held[0] = None            # the previous round's array dies here ...
+        grid = base.copy()        # ... and the new one of equal size is created right away: it usually gets the same address
+        held[0] = grid
+        m1 = io.OneMoleculeReader(p1).get_molecule()
+        m2 = io.OneMoleculeReader(p2).get_molecule()
+        u = pts.Pseudotrajectory(m1, m2, grid.copy()).get_pt_as_universe()
+        m2ref = io.OneMoleculeReader(p2).get_molecule()
+        info = {"placements": grid.copy(), "d": np.asarray(fg.get_position_grid().get_o_grid().get_grid_as_array(), dtype=float),
+                "q": np.asarray(fg.b_rotations.get_grid_as_array(only_upper=True), dtype=float),
+                "r": np.asarray(fg.get_position_grid().get_radii(), dtype=float), "include_outliers": False, "planar": False,
+                "x2_ref": np.array(m2ref.atoms.positions, dtype=float), "m2": np.array(m2ref.atoms.masses, dtype=float),
+                "desc": {"churn": True, "t": t}}
+        REG[id(u)] = info
+        try:
+            tr.AssignmentTool(grid, u, m2ref, include_outliers=False, cartesian_grid=True).get_full_assignments()
+        finally:
+            REG.pop(id(u), None)
+
+    for k in range(rounds):
+        a = round(0.2 + 0.05 * rng.randint(0, 8), 3)
+        t = f"[{a}, {round(a + 0.1 + 0.05 * rng.randint(0, 6), 3)}, {round(a + 0.6 + 0.1 * rng.randint(0, 5), 3)}]"
+        REC.begin_case({"churn": True, "round": k, "t": t}, cls="object churn")
+        try:
+            one_round(t)
+            REC.nontrivial_case(("churn", k, t))
+        except Exception as e:
+            REC.crashed("C11.call_raised", e)
+
+
 def shards(tier, seed):
     n, per = (12, 2) if tier == "quick" else (16, 14)
-    return [{"rseed": seed * 1000 + i, "count": per} for i in range(n)]
+    return [{"rseed": seed * 1000 + i, "count": per} for i in range(n)] + \
+           [{"rseed": seed * 1000 + 700 + i, "count": 0, "churn": 10 if tier == "quick" else 40} for i in range(1 if tier == "quick" else 3)]
 
 
 def run_shard(spec):
@@ -345,6 +404,8 @@ def run_shard(spec):
     try:
         for it in range(spec["count"]):
             drive(tr, pts, io, d, rng, nprng, spec["tier"], it, cache)
+        if spec.get("churn"):
+            drive_churn(tr, pts, io, d, rng, nprng, spec["churn"])
         if spec["rseed"] % 1000 == 4:
             # history: two grids of equal size whose first and last grid points coincide but whose interior radii differ, used one after the
             # other in the same process (nothing learnt about the first grid may leak into the second)
